@@ -713,10 +713,16 @@ func c12Execute(p c12Case, record bool) (*c12Ctl, string) {
 	defer reassembly.VerifSetController(nil, nil)
 
 	status := ""
+	steps := 0
+	livelock := false
 	runRest := func() bool {
 		for {
 			e := ctl.enabledSet()
 			if len(e) == 0 {
+				return true
+			}
+			if steps++; steps > c12MaxSteps {
+				livelock = true
 				return true
 			}
 			if record {
@@ -737,6 +743,9 @@ func c12Execute(p c12Case, record bool) (*c12Ctl, string) {
 			ctl.trace = append(ctl.trace, ctl.enabledSet())
 			ctl.chosen = append(ctl.chosen, t)
 		}
+		if steps++; steps > c12MaxSteps {
+			break
+		}
 		if !ctl.step(t) {
 			ok = false
 			break
@@ -755,6 +764,9 @@ func c12Execute(p c12Case, record bool) (*c12Ctl, string) {
 	case !ok:
 		status = "hang"
 		ctl.fail("C12:stuck", "a thread did not reach its next yield point within 5 s")
+	case livelock:
+		status = "fuel"
+		ctl.fail("C12:stuck", fmt.Sprintf("no termination within %d steps (livelock)", c12MaxSteps))
 	case !allDone:
 		status = "stuck"
 		ctl.fail("C12:stuck", "threads remain but none can step")
@@ -763,7 +775,10 @@ func c12Execute(p c12Case, record bool) (*c12Ctl, string) {
 		ctl.addThread([]c12Op{{flush: true}})
 		if runRest() {
 			status = "done"
-			if !ctl.threads[len(ctl.threads)-1].done {
+			if livelock {
+				status = "fuel"
+				ctl.fail("C12:stuck", fmt.Sprintf("no termination within %d steps (livelock)", c12MaxSteps))
+			} else if !ctl.threads[len(ctl.threads)-1].done {
 				status = "stuck"
 				ctl.fail("C12:stuck", "the final FlushAll cannot step")
 			}
@@ -857,6 +872,10 @@ func c12Feeders(p c12Case) map[string][]int {
 
 // ---------------------------------------------------------------- generators
 const c12ISN = 1000
+
+// bound on the number of steps of one execution (a correct run of the largest generated case
+// takes a few hundred)
+const c12MaxSteps = 3000
 
 func c12Payload(flow, dir, idx, n int) string {
 	b := make([]byte, n)
